@@ -33,7 +33,7 @@ def _inrange_key(cfg, r):
     if cfg["backing"] == "multi":
         return ("multi", cfg["K"], tuple(cfg["kinds"]), r["e"], bool(r.get("err")))
     return (cfg["backing"], cfg["byView"], cfg["maxTof"] > cfg["minTof"], cfg["type"], cfg["big"], cfg["fresh"], cfg["off"] > 0,
-            r["e"], bool(r.get("err")), r.get("w", 1))
+            cfg.get("scale", 1), r["e"], bool(r.get("err")), r.get("w", 1))
 
 
 def run(ctx):
@@ -123,6 +123,8 @@ def run(ctx):
                 seen[k] = seen.get(k, 0) + 1
             k = ("Config:" + cfgr["backing"], bool(cfgr.get("err") or cfgr.get("herr")))
             seen[k] = seen.get(k, 0) + 1
+            if cfgr.get("scale", 1) != 1:
+                seen[("Config:scaled", False)] = seen.get(("Config:scaled", False), 0) + 1
         if at is not None or not ok:
             ctx.violation("trace not consumed (line %s)" % at, p)
             continue
@@ -146,11 +148,11 @@ def run(ctx):
         # vacuity guard: the recording must contain every kind of call, accepted and (where out-of-range requests exist) refused
         need = [(e, False) for e in ("SetBin", "SetSino", "SetView", "SetSegV", "SetSegS", "SetRel", "Fill", "FillFrom", "FillIter", "IterSet",
                                      "IterCopy", "GetBin", "GetSino", "GetView", "GetSegV", "GetSegS", "GetRel", "CopyTo", "CloneMem", "Reopen",
-                                     "WriteToFile", "Config:stream", "Config:interfile", "Config:hdrstream", "Config:memory",
+                                     "WriteToFile", "Config:stream", "Config:interfile", "Config:hdrstream", "Config:memory", "Config:sstream",
                                      # round 2: arithmetic / bulk, re-use histories, one more index
                                      "Xapyb", "XapybV", "Sapyb", "SapybV", "AddPD", "SubPD", "MulPD", "DivPD", "AddF", "SubF", "MulF", "DivF",
                                      "Stats", "Subset", "FillWide", "StdSeq", "Reattach", "Second", "Config:multi", "MFill", "MCopy", "MGet",
-                                     "MSetSub", "MReplace", "MCalib", "MDivDur", "MRead")]
+                                     "MSetSub", "MReplace", "MCalib", "MDivDur", "MRead", "Config:scaled")]
         need += [(e, True) for e in ("SetBin", "SetSino", "SetView", "SetSegV", "SetSegS", "GetBin", "GetSino", "GetView", "GetSegV", "GetSegS",
                                      "Config:interfile", "Config:hdrstream", "FillNarrow", "ArithBad")]
         missing = [k for k in need if not seen.get(k)]
@@ -160,7 +162,8 @@ def run(ctx):
     ctx.extra["store_executions"] = nconf
     ctx.exhaustive = False
     ctx.assumptions = [
-        "values are small positive integers (exact in every on-disk type, below the 1.01 safety margin of find_scale_factor); scale factor 1",
+        "values are small positive integers (exact in every on-disk type, below the 1.01 safety margin of find_scale_factor); on-disk scale "
+        "factor 1, or 2 / 4 on integer on-disk types with values that are multiples of it (exact)",
         "TOF bins are stored in increasing order (changing the sequence of timing bins is documented as unsupported)",
         "exam-information fields left unspecified by the writer (radionuclide 'Unknown', no time frame) may come back as the reader's documented default",
         "related viewgrams are requested for symmetric segment ranges only (the PET symmetries presuppose them)",
